@@ -109,7 +109,7 @@ func (w *World) Probe() {
 			}
 			for _, s := range snaps.Snapshots {
 				if d, err := w.App.BridgeKeeper.AttestSnapshotDataMap.Get(w.Ctx, s); err == nil && d.AttestationTimestamp == uint64(w.Time.UnixMilli()) {
-					probes = append(probes, Rec{"k": "snap", "q": n, "ts": NumU64(d.Timestamp), "prev": NumU64(d.PrevReportTimestamp), "next": NumU64(d.NextReportTimestamp), "ok": true})
+					probes = append(probes, Rec{"k": "snap", "q": n, "ts": NumU64(d.Timestamp), "prev": NumU64(d.PrevReportTimestamp), "next": NumU64(d.NextReportTimestamp), "at": NumU64(d.AttestationTimestamp), "ok": true})
 				}
 			}
 		}
